@@ -1549,11 +1549,11 @@ def run_toterr(s, o):
 # realistic covariance defect (a half-pixel origin slip = 0.5 px; a wrong cutout origin changes fluxes by O(1)).
 SPEC_PSF = _TableSpec(free_unit=('flux_init', 'flux_fit', 'flux_err', 'local_bkg'),
                       x_init=K('x', 'y_init'), y_init=K('y', 'x_init'),
-                      x_fit=K('x', 'y_fit', atol=5e-2), y_fit=K('y', 'x_fit', atol=5e-2),
-                      flux_fit=K('free', rtol=1e-2, unit='data'), x_err=K('free', 'y_err', rtol=5e-2),
-                      y_err=K('free', 'x_err', rtol=5e-2), flux_err=K('free', rtol=5e-2, unit='data'),
-                      fwhm_fit=K('free', rtol=1e-2), fwhm_err=K('free', rtol=5e-2),
-                      qfit=K('free', rtol=1e-2, atol=1e-3), cfit=K('free', rtol=1e-2, atol=1e-3),
+                      x_fit=K('x', 'y_fit', atol=5e-2, md=True), y_fit=K('y', 'x_fit', atol=5e-2, md=True),
+                      flux_fit=K('free', rtol=1e-2, unit='data', md=True), x_err=K('free', 'y_err', rtol=5e-2, md=True),
+                      y_err=K('free', 'x_err', rtol=5e-2, md=True), flux_err=K('free', rtol=5e-2, unit='data', md=True),
+                      fwhm_fit=K('free', rtol=1e-2, md=True), fwhm_err=K('free', rtol=5e-2, md=True),
+                      qfit=K('free', rtol=1e-2, atol=1e-3, md=True), cfit=K('free', rtol=1e-2, atol=1e-3, md=True),
                       model_image=K('frame', per_row=False, rtol=1e-2, aamp=3e-2, unit='data'),
                       resid_image=K('frame', per_row=False, rtol=1e-2, aamp=3e-2, unit='data'),
                       n=K('free', per_row=False), window_tie=K('skip'))
@@ -1636,10 +1636,20 @@ def run_psf(s, o):
     py = np.asarray(split_unit(t['y_fit'])[0], float) - fy / 2.0
     with np.errstate(invalid='ignore'):
         out['window_tie'] = bool(np.any(np.abs(px - np.rint(px)) < 1e-3) or np.any(np.abs(py - np.rint(py)) < 1e-3))
+    # unconstrained fits (reported position error > 1 px or not finite: junk detections, sources without signal) are
+    # "infinitely ill conditioned": their fitted columns are not compared and they veto the rendered images
+    def col(n):
+        return np.asarray(split_unit(t[n])[0], float) if n in t.colnames else np.zeros(len(t))
+    with np.errstate(invalid='ignore'):
+        ill = ~(np.isfinite(col('x_err')) & np.isfinite(col('y_err')) & (col('x_err') <= 1.0) & (col('y_err') <= 1.0))
+        # no significant flux: qfit / cfit (residuals normalised by the fitted flux) and the position blow up
+        ill |= (np.abs(col('qfit')) > 5.0) | (np.abs(col('flux_fit')) < 3.0 * np.abs(col('flux_err')))
+    cond = np.where(ill, np.inf, 1.0)
+    out['window_tie'] = bool(out['window_tie'] or ill.any())
     x, y = np.asarray(t['x_init'], float), np.asarray(t['y_init'], float)
     h = max(o['fit_shape']) / 2.0 + 2.0 + (o['localbkg'][1] if o['localbkg'] else 0.0) + o['aperture_radius']
     rows = np.column_stack([x - h, x + h, y - h, y + h])
-    return out, rows
+    return out, rows, cond
 
 
 # ----------------------------------------------------------------------
